@@ -66,7 +66,10 @@ def reset_globals():
         ctyp.g_toplevel_ns = {}
 
 
-def translate(backend: str, a: ast.AST) -> Tuple[str, Any]:
+LAST_KIND_INPUT: Dict[str, Any] = {}
+
+
+def translate(backend: str, a: ast.AST, want_ast: bool = False) -> Tuple[str, Any]:
     """Run the whole repository pipeline on a query AST.  Returns ("ok", {files, info}) or
     ("error", exception class name, message)."""
     exe = executors()[backend]()
@@ -83,8 +86,17 @@ def translate(backend: str, a: ast.AST) -> Tuple[str, Any]:
     with tempfile.TemporaryDirectory(prefix="fv-pkg-") as d:
         out = Path(d)
         try:
+            LAST_KIND_INPUT.clear()
+            LAST_KIND_INPUT["stage"] = "transform"
             a2 = exe.apply_ast_transformations(a)
+            if want_ast:
+                from . import astser
+
+                LAST_KIND_INPUT["ast"] = astser.ser(a2)
+                LAST_KIND_INPUT["registry"] = astser.registry()
+            LAST_KIND_INPUT["stage"] = "write"
             info = exe.write_cpp_files(a2, out)
+            LAST_KIND_INPUT["stage"] = "done"
         except Exception as e:  # noqa: BLE001 - exception class is the observable
             return ("error", type(e).__name__, str(e)[:300])
         files = {}
